@@ -543,3 +543,78 @@ def cli_row(proj, ch, lab, row):
     else:
         argv = []
     return pre, {"op": "cli", "argv": argv, "expect": exp, "why": row, "files": files}
+
+
+def sync_pattern_rows(proj, patterns):
+    """Rows of the full `sync` invocation table (DESIGN §3.2): every presence pattern (absent / once / twice) of the three
+    file options and the three name options x the three --truth values.  `patterns`: iterable of indices in [0, 3**6 * 3).
+    The expected class of a row is derived from the documented command-line rules only:
+      reject  - no file option for the truth kind, or fewer than two files in total;
+      either  - a file option without its name option (a usage error or a successful run are both fine, an internal error is not);
+      accept  - everything else (a name option without files is simply unused)."""
+    W = "<W>/"
+    kinds = ["argparse_function", "class", "function"]
+    flag = {"argparse_function": "--argparse-function", "class": "--class", "function": "--function"}
+    base = {k: proj.by_kind[k][0] for k in kinds}
+    second = {k: base[k].replace(".py", "_b.py") for k in kinds}
+    pre = []
+    for k in kinds:
+        pre.append({"op": "env", "path": base[k], "text": proj.text(base[k]), "label": "table_setup"})
+        pre.append({"op": "env", "path": second[k], "text": proj.text(base[k]), "label": "table_setup"})
+    ops = list(pre)
+    for idx in patterns:
+        t = kinds[idx % 3]
+        rest = idx // 3
+        counts = []
+        for _ in range(6):
+            counts.append(rest % 3)
+            rest //= 3
+        fcount = dict(zip(kinds, counts[:3]))
+        ncount = dict(zip(kinds, counts[3:]))
+        argv = ["sync", "--truth", t]
+        files = []
+        for k in kinds:
+            for j in range(fcount[k]):
+                rel = base[k] if j == 0 else second[k]
+                argv += [flag[k], W + rel]
+                files.append(rel)
+            for j in range(ncount[k]):
+                argv += [flag[k] + "-name", proj.names[k] if j == 0 else proj.names[k] + "Other"]
+        total = sum(fcount.values())
+        if fcount[t] == 0 or total < 2:
+            exp = "reject"
+        elif any(fcount[k] and not ncount[k] for k in kinds):
+            exp = "either"
+        else:
+            exp = "accept"
+        ops.append({"op": "cli", "argv": argv, "expect": exp, "why": "pattern f=%s n=%s truth=%s" % ("".join(str(fcount[k]) for k in kinds), "".join(str(ncount[k]) for k in kinds), t[0]),
+                    "files": sorted(set(files)), "pattern": idx})
+        # the simulated user restores the project between rows, so that every row starts from the same files
+        if exp != "reject":
+            ops += pre
+    return ops
+
+
+def other_table_rows(proj):
+    """sync_properties and gen rows: file present/missing x equal/unequal parameter counts; output absent/present x type."""
+    W = "<W>/"
+    ops = []
+    cls, fn = proj.by_kind["class"][0], proj.by_kind["function"][0]
+    for rel in (cls, fn):
+        ops.append({"op": "env", "path": rel, "text": proj.text(rel), "label": "table_setup"})
+    for inp_ok in (True, False):
+        for out_ok in (True, False):
+            for equal in (True, False):
+                argv = ["sync_properties", "--input-filename", W + (cls if inp_ok else "nope_in.py"), "--output-filename", W + (fn if out_ok else "nope_out.py"),
+                        "--input-param", "x", "--output-param", "y"] + ([] if equal else ["--input-param", "z"])
+                if not inp_ok or not out_ok:
+                    exp = "reject"
+                elif not equal:
+                    exp = "either"
+                else:
+                    continue  # resolvability of x / y is C14's subject
+                ops.append({"op": "cli", "argv": argv, "expect": exp, "why": "sp in=%s out=%s equal=%s" % (inp_ok, out_ok, equal), "files": [cls, fn]})
+    for typ in ("class", "function", "argparse"):
+        ops.append({"op": "cli", "argv": ["gen", "--name-tpl", "{name}Config", "--input-mapping", "os.environ", "--type", typ, "--output-filename", W + cls],
+                    "expect": "reject", "why": "gen onto existing output type=%s" % typ, "files": [cls]})
+    return ops
